@@ -407,8 +407,8 @@ pub fn run(opts: &Opts) -> Report {
     let s = ScorerLookups;
     crate::props::committed_replays(&a, opts, &mut rep);
     crate::props::committed_replays(&s, opts, &mut rep);
-    run_sub(&a, opts, opts.tier.pick(4000, 80_000), &mut rep);
-    run_sub(&s, opts, opts.tier.pick(3000, 60_000), &mut rep);
+    run_sub(&a, opts, opts.tier.pick(10_000, 160_000), &mut rep);
+    run_sub(&s, opts, opts.tier.pick(6000, 100_000), &mut rep);
     crate::props::c05::absorb_xresults(&mut rep, opts, "C07");
     rep
 }
